@@ -13,6 +13,7 @@ import (
 
 	"verif/internal/kinds"
 	"verif/internal/load"
+	"verif/internal/norm"
 	"verif/internal/paths"
 	"verif/internal/report"
 )
@@ -78,6 +79,14 @@ func (im *Impl) findDumpRoles() (*dumpRoles, string) {
 	return r, ""
 }
 
+// dumpKeep: the dumper's primitives (verified by dump-helpers) and the per-kind methods.
+func (im *Impl) dumpKeep(r *dumpRoles) func(fn *types.Func) bool {
+	return func(fn *types.Func) bool {
+		n := fn.Name()
+		return n == r.vertex || n == r.vertexList || n == r.tok || n == r.tokList || n == r.pos || n == r.value || n == r.print || im.Kinds.ByMethod[n] != nil
+	}
+}
+
 // strPart is one operand of a string concatenation handed to print.
 type strPart struct {
 	Const   string
@@ -89,12 +98,30 @@ type strPart struct {
 }
 
 func (im *Impl) flatten(e ast.Expr, subject, key types.Object) []strPart {
+	parts := im.flatten1(e, subject, key)
+	var out []strPart
+	for _, p := range parts {
+		if p.IsConst && len(out) > 0 && out[len(out)-1].IsConst {
+			out[len(out)-1].Const += p.Const
+			continue
+		}
+		out = append(out, p)
+	}
+	return out
+}
+
+func (im *Impl) flatten1(e ast.Expr, subject, key types.Object) []strPart {
 	e = unparen(e)
+	if id, ok := e.(*ast.Ident); ok && im.strEnv != nil {
+		if v, ok := im.strEnv[im.info().Uses[id]]; ok {
+			return v
+		}
+	}
 	if tv, ok := im.info().Types[e]; ok && tv.Value != nil && tv.Value.Kind() == constant.String {
 		return []strPart{{Const: constant.StringVal(tv.Value), IsConst: true}}
 	}
 	if be, ok := e.(*ast.BinaryExpr); ok && be.Op == token.ADD {
-		return append(im.flatten(be.X, subject, key), im.flatten(be.Y, subject, key)...)
+		return append(im.flatten1(be.X, subject, key), im.flatten1(be.Y, subject, key)...)
 	}
 	if key != nil && im.isObj(e, key) {
 		return []strPart{{Key: true}}
@@ -150,8 +177,63 @@ type dumpCtx struct {
 	locals  map[types.Object]bool // loop variables
 }
 
+// newPath forgets what local string variables held on the previous path.
+func (dc *dumpCtx) newPath() { dc.im.strEnv = map[types.Object][]strPart{} }
+
+// stmtEvent: events of kind "local" record a local string variable and are to be skipped by the caller.
 func (dc *dumpCtx) stmtEvent(s ast.Stmt) (dumpEvent, bool) {
 	im := dc.im
+	isStr := func(o types.Object) bool {
+		v, ok := o.(*types.Var)
+		if !ok || v.IsField() || v.Parent() == nil || v.Parent() == v.Pkg().Scope() {
+			return false
+		}
+		b, ok := v.Type().Underlying().(*types.Basic)
+		return ok && b.Kind() == types.String
+	}
+	switch s := s.(type) {
+	case *ast.DeclStmt:
+		if gd, ok := s.Decl.(*ast.GenDecl); ok && gd.Tok == token.VAR {
+			all := true
+			for _, sp := range gd.Specs {
+				vs := sp.(*ast.ValueSpec)
+				for i, nm := range vs.Names {
+					o := im.info().Defs[nm]
+					if o == nil || !isStr(o) {
+						all = false
+						continue
+					}
+					if im.strEnv == nil {
+						im.strEnv = map[types.Object][]strPart{}
+					}
+					if i < len(vs.Values) {
+						im.strEnv[o] = im.flatten(vs.Values[i], dc.subject, dc.key)
+					} else {
+						im.strEnv[o] = []strPart{{Const: "", IsConst: true}}
+					}
+				}
+			}
+			if all {
+				return dumpEvent{kind: "local", pos: s.Pos()}, true
+			}
+		}
+	case *ast.AssignStmt:
+		if len(s.Lhs) == 1 && len(s.Rhs) == 1 && (s.Tok == token.DEFINE || s.Tok == token.ASSIGN) {
+			if id, ok := s.Lhs[0].(*ast.Ident); ok {
+				o := im.info().Defs[id]
+				if o == nil {
+					o = im.info().Uses[id]
+				}
+				if o != nil && isStr(o) {
+					if im.strEnv == nil {
+						im.strEnv = map[types.Object][]strPart{}
+					}
+					im.strEnv[o] = im.flatten(s.Rhs[0], dc.subject, dc.key)
+					return dumpEvent{kind: "local", pos: s.Pos()}, true
+				}
+			}
+		}
+	}
 	switch s := s.(type) {
 	case *ast.IncDecStmt:
 		if f, ok := im.fieldOf(s.X, dc.recv); ok && f == "indent" {
@@ -236,6 +318,7 @@ func DumpSlots(p *load.Program, tb *kinds.Table) *report.RuleResult {
 		res.Unknown("impl/helpers", "-", "", "undecided:anchor: "+msg)
 		return res
 	}
+	im.UseNorm(im.dumpKeep(roles), norm.Options{SplitCond: true})
 	kms, missing := im.KindMethods()
 	for _, m := range missing {
 		res.Bad("method/"+m, "-", m, "Dumper does not declare this visitor method itself")
@@ -248,7 +331,7 @@ func DumpSlots(p *load.Program, tb *kinds.Table) *report.RuleResult {
 		fn := "Dumper." + k.Method
 		pos := im.pos(fd)
 		dc := &dumpCtx{im: im, roles: roles, recv: im.recvObj(fd), subject: im.paramObj(fd, 0), locals: map[types.Object]bool{}}
-		ps, err := paths.Enumerate(fd.Body)
+		ps, err := paths.Enumerate(im.Body(fd))
 		if err != nil {
 			res.Unknown(k.Name, pos, fn, "undecided:idiom: "+err.Error())
 			continue
@@ -257,12 +340,16 @@ func DumpSlots(p *load.Program, tb *kinds.Table) *report.RuleResult {
 		fieldBad := map[string]string{}
 		for pi, path := range ps {
 			var evs []dumpEvent
+			dc.newPath()
 			for _, it := range path {
 				switch {
 				case it.Stmt != nil:
 					ev, ok := dc.stmtEvent(it.Stmt)
 					if !ok {
 						undec = fmt.Sprintf("path %d: unrecognised statement at %s", pi, im.pos(it.Stmt))
+						continue
+					}
+					if ev.kind == "local" {
 						continue
 					}
 					evs = append(evs, ev)
@@ -358,6 +445,7 @@ func DumpHelpersIn(p *load.Program, tb *kinds.Table, rel string) *report.RuleRes
 		return res
 	}
 	res.Count("helpers", 7)
+	im.UseNorm(im.dumpKeep(roles), norm.Options{SplitCond: true})
 
 	// --- brackets & indent balance on every path of every function of the type
 	var names []string
@@ -369,6 +457,9 @@ func DumpHelpersIn(p *load.Program, tb *kinds.Table, rel string) *report.RuleRes
 		fd := im.Methods[name]
 		if name == roles.print {
 			continue
+		}
+		if o, ok := im.info().Defs[fd.Name].(*types.Func); ok && !im.dumpKeep(roles)(o) {
+			continue // not a primitive: inlined into its callers, where the balance is checked
 		}
 		res.Count("functions", 1)
 		why := im.dumpBalance(fd, roles)
@@ -446,6 +537,7 @@ func bracketDelta(s string) (net int, minPrefix int) {
 // indent cancel; loop bodies must be neutral too.
 func (im *Impl) dumpBalance(fd *ast.FuncDecl, roles *dumpRoles) string {
 	recv := im.recvObj(fd)
+	dc := &dumpCtx{im: im, roles: roles, recv: recv, locals: map[types.Object]bool{}}
 	var check func(body *ast.BlockStmt, what string) string
 	check = func(body *ast.BlockStmt, what string) string {
 		ps, err := paths.Enumerate(body)
@@ -454,9 +546,15 @@ func (im *Impl) dumpBalance(fd *ast.FuncDecl, roles *dumpRoles) string {
 		}
 		for pi, path := range ps {
 			net, ind := 0, 0
+			dc.newPath()
 			for _, it := range path {
 				switch {
 				case it.Stmt != nil:
+					switch it.Stmt.(type) {
+					case *ast.AssignStmt, *ast.DeclStmt:
+						dc.stmtEvent(it.Stmt) // local string variables
+						continue
+					}
 					if ids, ok := it.Stmt.(*ast.IncDecStmt); ok {
 						if f, ok := im.fieldOf(ids.X, recv); ok && f == "indent" {
 							if ids.Tok == token.INC {
@@ -504,20 +602,21 @@ func (im *Impl) dumpBalance(fd *ast.FuncDecl, roles *dumpRoles) string {
 		}
 		return ""
 	}
-	return check(fd.Body, "function")
+	return check(im.Body(fd), "function")
 }
 
 func (im *Impl) checkDumpVertex(roles *dumpRoles) string {
 	fd := im.Methods[roles.vertex]
 	dc := &dumpCtx{im: im, roles: roles, recv: im.recvObj(fd), key: im.paramObj(fd, 0), subject: nil, locals: map[types.Object]bool{im.paramObj(fd, 1): true}}
 	node := im.paramObj(fd, 1)
-	ps, err := paths.Enumerate(fd.Body)
+	ps, err := paths.Enumerate(im.Body(fd))
 	if err != nil {
 		return "undecidable: " + err.Error()
 	}
 	for pi, path := range ps {
 		know := map[string]int{}
 		var seq []string
+		dc.newPath()
 		for _, it := range path {
 			switch {
 			case it.Cond != nil:
@@ -528,6 +627,7 @@ func (im *Impl) checkDumpVertex(roles *dumpRoles) string {
 					return "unrecognised statement"
 				}
 				switch {
+				case ev.kind == "local":
 				case ev.kind == "print" && len(ev.parts) == 2 && ev.parts[0].Key && ev.parts[1].Const == ": " && ev.indent == "indent":
 					seq = append(seq, "key")
 				case ev.kind == "accept" && ev.argVar == node:
@@ -562,7 +662,7 @@ func (im *Impl) checkDumpList(roles *dumpRoles, name, open string, vertex bool) 
 	fd := im.Methods[name]
 	list := im.paramObj(fd, 1)
 	dc := &dumpCtx{im: im, roles: roles, recv: im.recvObj(fd), key: im.paramObj(fd, 0), locals: map[types.Object]bool{}}
-	ps, err := paths.Enumerate(fd.Body)
+	ps, err := paths.Enumerate(im.Body(fd))
 	if err != nil {
 		return "undecidable: " + err.Error()
 	}
@@ -571,6 +671,7 @@ func (im *Impl) checkDumpList(roles *dumpRoles, name, open string, vertex bool) 
 		var seq []string
 		state := "" // nil / empty / full as learnt
 		gateOff := false
+		dc.newPath()
 		for _, it := range path {
 			switch {
 			case it.Cond != nil:
@@ -604,6 +705,7 @@ func (im *Impl) checkDumpList(roles *dumpRoles, name, open string, vertex bool) 
 					return "unrecognised statement"
 				}
 				switch ev.kind {
+				case "local":
 				case "print":
 					var sb strings.Builder
 					for _, p := range ev.parts {
@@ -641,6 +743,7 @@ func (im *Impl) checkDumpList(roles *dumpRoles, name, open string, vertex bool) 
 						return "unrecognised statement in loop"
 					}
 					switch {
+					case ev.kind == "local":
 					case ev.kind == "print" && len(ev.parts) == 1 && ev.parts[0].Const == "" && ev.indent == "indent":
 						body = append(body, "indent")
 					case ev.kind == "accept" && ev.argVar == v:
@@ -704,7 +807,7 @@ func (im *Impl) checkDumpStruct(roles *dumpRoles, name string, T *types.Named, o
 		subject = im.paramObj(fd, 0)
 	}
 	dc := &dumpCtx{im: im, roles: roles, recv: im.recvObj(fd), subject: subject, key: key, locals: map[types.Object]bool{}}
-	ps, err := paths.Enumerate(fd.Body)
+	ps, err := paths.Enumerate(im.Body(fd))
 	if err != nil {
 		return "undecidable: " + err.Error()
 	}
@@ -715,6 +818,7 @@ func (im *Impl) checkDumpStruct(roles *dumpRoles, name string, T *types.Named, o
 		skipped := map[string]bool{} // fields known zero on this path
 		cnt := map[string]int{}
 		var frame []string
+		dc.newPath()
 		for _, it := range path {
 			switch {
 			case it.Cond != nil:
@@ -749,6 +853,7 @@ func (im *Impl) checkDumpStruct(roles *dumpRoles, name string, T *types.Named, o
 					return "unrecognised statement at " + im.pos(it.Stmt)
 				}
 				switch ev.kind {
+				case "local":
 				case "inc", "dec":
 					frame = append(frame, ev.kind)
 				case "helper":
@@ -842,19 +947,23 @@ func (im *Impl) checkDumpValue(roles *dumpRoles) string {
 	fd := im.Methods[roles.value]
 	key, val := im.paramObj(fd, 0), im.paramObj(fd, 1)
 	dc := &dumpCtx{im: im, roles: roles, recv: im.recvObj(fd), key: key, subject: val, locals: map[types.Object]bool{}}
-	ps, err := paths.Enumerate(fd.Body)
+	ps, err := paths.Enumerate(im.Body(fd))
 	if err != nil {
 		return "undecidable: " + err.Error()
 	}
 	for pi, path := range ps {
 		know := map[string]int{}
 		n := 0
+		dc.newPath()
 		for _, it := range path {
 			switch {
 			case it.Cond != nil:
 				im.learnNil(it.Cond, it.Truth, func(e ast.Expr) (string, bool) { return "v", im.isObj(e, val) }, know)
 			case it.Stmt != nil:
 				ev, ok := dc.stmtEvent(it.Stmt)
+				if ok && ev.kind == "local" {
+					continue
+				}
 				if !ok || ev.kind != "print" {
 					return "unrecognised statement"
 				}
